@@ -23,6 +23,8 @@ CLAIMED = {
             "all values and all stage functions for every enumerated nesting / shape / split dimension", "4-C08"),
     "C10": ("proof", "contract-based deductive verification: class invariant of the weight cache proved preserved by every public method and every environment transition (real train/eval/use_cache/load_state_dict/_apply code) from every abstract pre-state; outputs proved equal to the uncached ones (z3)",
             "histories of any length by induction; all parameter and input values; D = 2", "4-C10"),
+    "C11": ("proof", "contract-based deductive verification: accessor agreement (W V = I, exp(logabsdet) = |det W| by cofactors, forward = W x + b, inverse = V (y - b)) as polynomial postconditions over symbolic parameters; QR/SVD proved against the Householder contract; constructor grid as a bounded enumeration",
+            "all parameter values at D <= 2 (3 thorough) under the stated non-degeneracy preconditions; constructor configurations enumerated (bounded part, labelled)", "4-C11"),
 }
 REASON_TODO = "check not built yet in this session (the design in DESIGN.md section 4 applies; will be claimed when its contracts discharge)"
 props = [json.loads(l) for l in open(os.path.join(V, "properties.jsonl"))]
